@@ -400,7 +400,54 @@ func buildOn(p mq.Packet, a *ref.AP, t *sim.Tape, ctor bool) (mq.Packet, *Recipe
 			ReadOnly(p, t.Int(ReadOnlyKinds))
 		}
 	}
+	if t != nil && t.Bool(1, 4) {
+		// A SIBLING: a second packet of the same type is built by the same calls with
+		// other values - after the last setter call on this packet and before its
+		// use - and dropped. Packets built through the API are independent objects;
+		// whatever the library shares between them behind the scenes (a pre-sized
+		// slice, a pooled struct) must not carry the sibling's values into this one.
+		buildSibling(rec)
+	}
 	return p, rec, nil
+}
+
+func buildSibling(rec *Recipe) {
+	defer func() { recover() }()
+	sib := &Recipe{Type: rec.Type, Origin: rec.Origin, PubQoS: rec.PubQoS ^ 1, PubTopic: "sibling/" + rec.PubTopic, PubPayload: "sibling"}
+	for _, o := range rec.Ops {
+		o.Arg = nil
+		switch o.Kind {
+		case "userprops":
+			kv := make([][2][]byte, len(o.KV))
+			for i := range kv {
+				kv[i] = [2][]byte{[]byte("sibling-key"), []byte("sibling-value")}
+			}
+			o.KV = kv
+		case "filters":
+			fs := make([]ref.Filter, len(o.Fs))
+			for i := range fs {
+				fs[i] = ref.Filter{Name: []byte("sibling/filter"), Opts: o.Fs[i].Opts ^ 1}
+			}
+			o.Fs, o.Arena = fs, nil
+		case "will", "rewill", "editwill", "editfilter", "editlist", "dupfilter":
+			// left as they are: their arguments are structured; other values reach the
+			// sibling through the scalar and string calls
+		default:
+			if len(o.B) > 0 {
+				b := append([]byte{}, o.B...)
+				b[0] ^= 0x01
+				o.B = b
+			}
+			if o.Kind != "qos" && o.Kind != "protover" {
+				o.N ^= 1
+			}
+			if o.Kind == "code" || o.Kind == "reason" {
+				o.N ^= 1 // keep the original code: any byte is a legal argument, this one is known to be
+			}
+		}
+		sib.Ops = append(sib.Ops, o)
+	}
+	sib.Again()
 }
 
 type discard struct{}
